@@ -1,0 +1,17 @@
+//go:build verif
+
+package packets
+
+import "net/netip"
+
+// VerifNewSourceSink, when set (verification builds only), supplies the Source/Sink
+// pair instead of the platform implementation. Returning handled=false falls through
+// to the platform implementation.
+var VerifNewSourceSink func(addr netip.Addr, useDriver bool) (handle SourceSinkHandle, handled bool, err error)
+
+func verifNewSourceSink(addr netip.Addr, useDriver bool) (SourceSinkHandle, bool, error) {
+	if VerifNewSourceSink == nil {
+		return SourceSinkHandle{}, false, nil
+	}
+	return VerifNewSourceSink(addr, useDriver)
+}
